@@ -350,7 +350,36 @@ func c08hostileString(r *vf.Rand, i int) (string, string) {
 // --- transactions and blocks
 
 func c08hostileScript(r *vf.Rand) []byte {
-	switch r.Intn(10) {
+	switch r.Intn(12) {
+	case 10, 11:
+		// a standard script form with bytes removed from (or added in) the MIDDLE:
+		// the leading and trailing opcodes that recognise the form are intact, its
+		// length is not what the form implies
+		var t []byte
+		switch r.Intn(5) {
+		case 0, 1:
+			t = append(append([]byte{0x76, 0xa9, 0x14}, r.Bytes(20)...), 0x88, 0xac)
+		case 2:
+			t = append(append([]byte{0xa9, 0x14}, r.Bytes(20)...), 0x87)
+		case 3:
+			t = append(append([]byte{0x21, 0x02}, r.Bytes(32)...), 0xac)
+		default:
+			t = append(append([]byte{0xaa, 0x20}, r.Bytes(32)...), 0x87)
+		}
+		head, tail := 1+r.Intn(3), 1+r.Intn(2)
+		if head+tail > len(t) {
+			return t
+		}
+		mid := t[head : len(t)-tail]
+		switch r.Intn(3) {
+		case 0:
+			mid = mid[:r.Intn(len(mid)+1)]
+		case 1:
+			mid = nil
+		default:
+			mid = append(append([]byte{}, mid...), r.Bytes(1+r.Intn(4))...)
+		}
+		return append(append(append([]byte{}, t[:head]...), mid...), t[len(t)-tail:]...)
 	case 0:
 		return nil
 	case 1:
@@ -539,7 +568,26 @@ var c08jsonKeys = []string{"hash", "height", "full_transactions", "transactions"
 	"signature_script", "outpoint", "a", "b", "", "hashK"}
 
 func c08jsonString(r *vf.Rand) string {
-	switch r.Intn(8) {
+	switch r.Intn(10) {
+	case 8, 9:
+		// exactly 64 (or 63 / 65 / 128) BYTES that are not 64 characters: hex
+		// digits mixed with multi-byte code points
+		want := []int{64, 64, 64, 63, 65, 128}[r.Intn(6)]
+		var sb strings.Builder
+		for sb.Len() < want {
+			left := want - sb.Len()
+			switch {
+			case left >= 2 && r.Chance(1, 4):
+				sb.WriteString([]string{"é", "ü", "ß", "\u0141"}[r.Intn(4)])
+			case left >= 3 && r.Chance(1, 8):
+				sb.WriteString([]string{"€", "\u212a", "\uff21"}[r.Intn(3)])
+			case left >= 4 && r.Chance(1, 12):
+				sb.WriteString("\U0001F600")
+			default:
+				sb.WriteByte("0123456789abcdefABCDEF"[r.Intn(22)])
+			}
+		}
+		return sb.String()
 	case 0:
 		return hx(r.Bytes(32))
 	case 1:
